@@ -59,7 +59,8 @@ ASSUMPTIONS = [
 REQUIRED = {
     "all": {
         "class:small_single": 8, "class:small_corner": 4, "corner_zero_cotangent": 1, "corner_converged_guess": 1,
-        "corner_zero_params": 1, "corner_same_p": 1, "class:small_chain": 4, "class:small_legacy_chain": 2, "class:fe": 2, "class:helper": 2,
+        "corner_zero_params": 1, "corner_same_p": 1, "class:small_chain": 4, "class:small_legacy_chain": 2, "class:small_loadcases": 2, "loadcase_on_reused_objective:design": 6,
+        "loadcase_on_reused_objective:state": 6, "class:fe": 2, "class:helper": 2,
         "class:adjoint_space": 2,
         "ift_cotangent_compared": 200, "slot0_compared": 40, "slot1_compared": 20, "slot2_compared": 40, "slot4_compared": 20,
         "entry_state": 20, "entry_design": 20, "settings_default": 20, "settings_tight": 20,
@@ -132,13 +133,15 @@ def build_cases(tier, seed):
     quick = tier == "quick"
     cfgs = _small_cfgs(tier, seed)
     per_cfg = {"small_single": 3 if quick else 16, "small_chain": 1 if quick else 6, "small_legacy_chain": 1 if quick else 2,
-               "small_legacy_bcstep": 1 if quick else 1}
+               "small_legacy_bcstep": 1 if quick else 1, "small_loadcases": 1 if quick else 2}
     for ci, cfg in enumerate(cfgs):
         key = small_cfg_key(cfg)
         for cls, m in per_cfg.items():
             if cls in ("small_legacy_chain", "small_legacy_bcstep") and "2" not in cfg["slots"]:
                 continue
             if cls == "small_legacy_bcstep" and (not quick and ci >= 24 or quick and ci % 3 != 0):
+                continue
+            if cls == "small_loadcases" and (not quick and ci >= 24 or quick and ci % 2 != 0):
                 continue
             for i in range(m):
                 cases.append({"cls": cls, "group": "s%02d" % ci, "cfg": cfg, "cost": 1.0 + cfg["n"] / 10.0,
@@ -433,7 +436,7 @@ def _closures(res, prob, st, x, p, rng):
             res.count("objective_closure_compared")
 
 
-def _single(res, prob, entry, sname, x0, p, p_before, p_after, vs, rng):
+def _single(res, prob, entry, sname, x0, p, p_before, p_after, vs, rng, require_forward=False):
     """One forward solve under jax.vjp, several pull-backs, one jax.grad of a nonlinear quantity of interest."""
     import jax
     import jax.numpy as np
@@ -458,6 +461,12 @@ def _single(res, prob, entry, sname, x0, p, p_before, p_after, vs, rng):
     res.count("residual_rechecked")
     if not (gn < s.tol):
         res.count("forward_not_converged")
+        if require_forward and not (gn < 1e3 * s.tol):
+            # the identical call (same guess, same argument, same objective parameters) on a fresh Objective reached the
+            # equilibrium; on the re-used Objective the point handed to the derivative rules is not an equilibrium of the
+            # requested parameters, so no pull-back through it can be the implicit-function-theorem derivative
+            res.violate("forward_equilibrium_on_reused_objective",
+                        {"entry": entry, "settings": sname, "residual_norm": gn, "tol": float(s.tol), "precond": prob.get("precond", "none")})
         return None
     if not st.finite() or not (st.lmin > 0):
         res.count("hessian_not_spd")
@@ -904,6 +913,47 @@ def _run_small_legacy(case, res, mutate):
     res.nontrivial = nt >= 1
     if nt == 0 and res.status == "held":
         res.vacuous("chain never reached converged SPD equilibria")
+    return res
+
+
+def _run_small_loadcases(case, res):
+    """Load-case study on ONE Objective: several load cases (bc / time / state slots differ, same design) are analysed from
+    the same guess, through both entry points, after the same calls have been made on a fresh Objective each.  Whatever the
+    re-used object remembers from the earlier load cases, every solve must hand the derivative rules the equilibrium of the
+    parameters it was asked for, and the pulled-back cotangents must equal the IFT reference at that point."""
+    import jax.numpy as np
+    from vlib.oracles import c07_ift as ift
+    cfg = case["cfg"]
+    prob = _problem(cfg)
+    rng, a, cond, (p, p1, p2), x0 = _small_inputs(cfg, case["seed"], {})
+    kinds = _precond_cycle(case["seed"])
+    cases_p = []
+    for other, f in ((p, 1.0), (p1, 1.0), (p2, 1.0), (p1, -0.7)):
+        pk = p
+        for sl in (0, 1, 4):
+            if p[sl] is not None and onp.size(p[sl]) > 0:
+                pk = ift.with_slot(pk, sl, np.asarray(f * _np(other[sl])))
+        cases_p.append(pk)
+    nt = 0
+    for ei, entry in enumerate(("design", "state")):
+        if entry == "design" and p[2] is None:
+            continue
+        shared = _with_precond(prob, kinds[ei], onp.zeros(cfg["n"]), p, rng)
+        for k, pk in enumerate(cases_p):
+            vs = [rng.standard_normal(cfg["n"])]
+            fresh = _with_precond(prob, kinds[ei], onp.zeros(cfg["n"]), p, rng)
+            out_f = _single(res, fresh, entry, "tight", x0, pk, pk, pk, vs, rng)
+            if out_f is None:
+                res.count("loadcase_fresh_not_converged")
+                continue
+            out_s = _single(res, shared, entry, "tight", x0, pk, pk, pk, vs, rng, require_forward=True)
+            res.count("loadcase_on_reused_objective")
+            res.count("loadcase_on_reused_objective:" + entry)
+            if out_s is not None and out_s["nontrivial"]:
+                nt += 1
+    res.nontrivial = nt >= 1
+    if nt == 0 and res.status == "held":
+        res.vacuous("no load case reached a converged SPD equilibrium")
     return res
 
 
@@ -1354,6 +1404,8 @@ def _run_case(case, res):
         return _run_small_legacy(case, res, False)
     if cls == "small_legacy_bcstep":
         return _run_small_legacy(case, res, True)
+    if cls == "small_loadcases":
+        return _run_small_loadcases(case, res)
     if cls == "fe":
         return _run_fe(case, res)
     if cls == "helper":
